@@ -74,6 +74,13 @@ T["T10"] = dict(   # uptake smaller than the capacity of a cycle whose partner r
     objectives=[{"DM_B": 1}])
 
 
+T["T11"] = dict(   # a reversible objective reaction that has to run backwards once the source is knocked out
+    mets={"A": "c", "B": "c"},
+    rxns=[("SRC", {"A": 1}, (0, 10), "g1"), ("R1", {"A": -1, "B": 1}, (0, 10), ""),
+          ("DRAIN", {"B": -1}, (2, 10), "g2"), ("DM_B", {"B": -1}, (-10, 10), "")],
+    objectives=[{"DM_B": 1}])
+
+
 def build(tid, coef=None):
     """build the template through the public API (add_metabolites on detached reactions,
     add_reactions).  coef: optional {(rid, mid): value} overriding stoichiometry."""
